@@ -404,7 +404,7 @@ def baseline():
 
 
 def write_replay(prop, failure, unit_res, counterexample=None, oracle=None):
-    d = os.path.join(VERIF, "replays", prop)
+    d = os.path.join(os.environ.get("VERIF_REPLAY_DIR", os.path.join(VERIF, "replays")), prop)
     os.makedirs(d, exist_ok=True)
     safe = re.sub(r"[^A-Za-z0-9_.-]+", "_", failure["obligation"])
     p = os.path.join(d, safe + ".json")
@@ -438,7 +438,7 @@ def check_property(prop, tier, seed, jobs=4):
         units += pc.get("units_thorough", [])
     results = {}
     with concurrent.futures.ThreadPoolExecutor(max_workers=jobs) as ex:
-        futs = {ex.submit(run_unit, u, REPO, tier, True, None, False, prop): u for u in units}
+        futs = {ex.submit(run_unit, u, REPO, tier, True, None, False, prop + os.environ.get("VERIF_BUILD_TAG", "")): u for u in units}
         for fu in concurrent.futures.as_completed(futs):
             results[futs[fu]] = fu.result()
     base = baseline()["functions"]
@@ -483,7 +483,29 @@ def check_property(prop, tier, seed, jobs=4):
                                               "label": kr["harness"], "props": [prop], "kani": kr}))
             elif kr["status"] == "undecided":
                 undecided.append((kr["harness"], kr.get("reason", "kani undecided")))
+    # thorough: the witnesses of the FIXED findings of this property are replayed on the real code;
+    # a witness that fails again is a violation (a fixed entry suppresses nothing)
+    replayed = []
+    if tier == "thorough":
+        import replay as replay_mod
+        for k in known_findings():
+            if k.get("status") == "fixed" and (k.get("property") == prop or prop in k.get("properties", [])):
+                try:
+                    cex, oracle = replay_mod.search_counterexample(k["obligation"], REPO, seed)
+                except Exception as e:
+                    replayed.append({"obligation": k["obligation"], "result": "replay unavailable: %s" % str(e)[:200]})
+                    continue
+                if cex:
+                    violations.append((None, {"obligation": k["obligation"], "function": "replay", "label": "replay",
+                                              "message": "witness of a fixed finding fails again on the real code",
+                                              "rendered": cex.get("observed", ""), "props": [prop],
+                                              "kani": {"harness": "replay", "counterexample": cex}}))
+                    replayed.append({"obligation": k["obligation"], "result": "FAILS AGAIN", "observed": cex.get("observed")})
+                else:
+                    replayed.append({"obligation": k["obligation"], "result": "holds on the real code", "detail": oracle})
     wall = time.time() - t0
+    pc = dict(pc)
+    pc["_replayed_fixed"] = replayed
     write_evidence(prop, tier, seed, units, results, violations, known_hits, undecided, kani_results, wall, pc)
     for fl, k in known_hits:
         print("KNOWN-FINDING: property=%s %s %s" % (prop, fl["obligation"], k.get("witness", "")))
@@ -574,6 +596,7 @@ def write_evidence(prop, tier, seed, units, results, violations, known_hits, und
             "known_findings": [{"obligation": fl["obligation"], "witness": k.get("witness")} for fl, k in known_hits],
             "undecided": [{"unit": u, "reason": why} for u, why in undecided],
             "undecided_part_of_property": pc.get("undecided", ""),
+            "replayed_fixed_findings": pc.get("_replayed_fixed", []),
             "bounded_standins": [k for k in kani_results if k.get("kind") == "bounded"],
             "dependency_contracts": [k for k in kani_results if k.get("kind") == "complete"],
         },
@@ -586,8 +609,9 @@ def write_evidence(prop, tier, seed, units, results, violations, known_hits, und
         "wall_s": round(wall, 2),
         "violations": len(violations),
     }
-    os.makedirs(os.path.join(VERIF, "evidence"), exist_ok=True)
-    with open(os.path.join(VERIF, "evidence", "%s.json" % prop), "w") as f:
+    evdir = os.environ.get("VERIF_EVIDENCE_DIR", os.path.join(VERIF, "evidence"))
+    os.makedirs(evdir, exist_ok=True)
+    with open(os.path.join(evdir, "%s.json" % prop), "w") as f:
         json.dump(ev, f, indent=1)
 
 
